@@ -17,7 +17,7 @@ META = {
         'rowids - hence every synsets.ili_rowid - and metadata survive; R3 no other statement in wn/ deletes, '
         'replaces or updates ilis, lexicon import inserts presupposed ILIs with INSERT OR IGNORE and links synsets '
         'by ILI id, so the order of index and lexicons cannot change status/definition; R4 the load is one '
-        'transaction; R5 _ili.load lower-cases the header fields the importer reads. R6 also: records are the lines of file iteration, never str.splitlines(). R7 a record of _ili.load is dict(zip(header fields, cells of the line)) - no padding - because _add_ili supplies status \'active\' and a NULL definition by ABSENCE of the key (two sites that must agree).'),
+        'transaction; R5 _ili.load lower-cases the header fields the importer reads. R6 also: records are the lines of file iteration, never str.splitlines(). R7 a record of _ili.load is dict(zip(header fields, cells of the line)) - no padding - because _add_ili supplies status \'active\' and a NULL definition by ABSENCE of the key (two sites that must agree). R8 a compressed index is read completely (C07-R9). R9 index content stays out of the exported lexicon: exporter reads are lexicon-scoped (C03-R3/R4).'),
     'decides': ['write set of the ILI loader', 'upsert shape', 'OR IGNORE for presupposed ILIs', 'single transaction',
                 'header case folding'],
     'not_decided': ['idempotence as observed values (follows from the upsert shape given SQLite semantics)'],
